@@ -120,6 +120,18 @@ def res_token(ids, line):
     return "x?"
 
 
+def why_token(why):
+    """the string returned by why() -> the token of Model/Why.lean (`whyTag`); anything unexpected -> X (never equal)"""
+    if why == "FINE":
+        return "F"
+    if why == "a CRITICAL job has raised an exception":
+        return "C"
+    m = re.fullmatch(r"TIMED OUT after (\d+|None)s", why) if isinstance(why, str) else None
+    if m:
+        return "TN" if m.group(1) == "None" else "T%d" % int(m.group(1))
+    return "X"
+
+
 def translate(sc, res, trace):
     """-> (ids, order, eventsA, eventsB, diag)"""
     ids, order = assign_ids(sc)
@@ -424,7 +436,7 @@ def translate(sc, res, trace):
     diag = []
     for name, (ft, fc, why) in (res.get("diag") or {}).items():
         if name in ids:
-            diag.append("%d:%d:%d" % (ids[name], 1 if ft is not False else 0, 1 if fc else 0))
+            diag.append("%d:%d:%d:%s" % (ids[name], 1 if ft is not False else 0, 1 if fc else 0, why_token(why)))
     return ids, order, A, B, ",".join(diag) or "-"
 
 
